@@ -27,7 +27,7 @@ def run(ctx: Ctx) -> Result:
         pre = V.rbytes(rng, rng.choice([1, 2, 16, 32, 33, 64]))
         hs = rng.choice([20, 20, 16, 32, 1, 4, 8, 15, 17, 41, 64])
         timeout = rng.choice([0, 1, 30, 60, 61, 3600])
-        flags = rng.choice(['00', '00', '01', '03'])
+        flags = rng.choice(['00', '00', '01', '03', '80', '40', '%02x' % (1 << rng.randrange(8)), '%02x' % rng.randrange(256)])
         sf = {'sigfield1': V.rbytes(rng, 6), 'sigfield2': V.rbytes(rng, 9)}
         tw = V.rbytes(rng, 32); twc = bytes(tw[:31]) + bytes([tw[31] & 0x7f]); Tp = nb.crypto_scalarmult_ed25519_base_noclamp(twc)
         deadline = B.now + timeout
